@@ -110,12 +110,49 @@ def findings(mod, func):
     return out
 
 
+def last_element_after_loop(mod, func):
+    """[(loop, list text, statement)]: a statement `L[-1].<attr> = ...` / `L[-1][k] = ...` that directly follows a loop which appends to L.
+    Inside the loop it would set the attribute of every element; after it, only the last element gets it."""
+    out = []
+    for n in walk(func):
+        for fld in ('body', 'orelse', 'finalbody'):
+            blk = getattr(n, fld, None)
+            if not isinstance(blk, list):
+                continue
+            for i, st in enumerate(blk):
+                if not isinstance(st, (ast.For, ast.While)):
+                    continue
+                appended = {unparse(c.func.value) for c in ast.walk(st) if isinstance(c, ast.Call) and isinstance(c.func, ast.Attribute) and c.func.attr == 'append'}
+                if not appended:
+                    continue
+                for nxt in blk[i + 1:]:
+                    if not isinstance(nxt, (ast.Assign, ast.AugAssign)):
+                        break
+                    tg = nxt.targets[0] if isinstance(nxt, ast.Assign) else nxt.target
+                    base = tg.value if isinstance(tg, (ast.Attribute, ast.Subscript)) else None
+                    if isinstance(base, ast.Subscript) and unparse(base.slice) == '-1' and unparse(base.value) in appended:
+                        # the same store inside the loop would be the per-element form: report only if the loop has no such store
+                        same_inside = any(isinstance(x, (ast.Assign, ast.AugAssign)) and unparse(x.targets[0] if isinstance(x, ast.Assign) else x.target) == unparse(tg) for x in ast.walk(st))
+                        if not same_inside:
+                            out.append((st, unparse(base.value), nxt))
+                    else:
+                        break
+    return out
+
+
 def check(ctx, rule, mod, qualnames=None):
     n = 0
     exc = EXCEPTIONS.get(mod.name, {})
     for q, f in mod.functions():
         if qualnames is not None and q not in qualnames:
             continue
+        for loop, lst, st in last_element_after_loop(mod, f):
+            if mod.enclosing_func(st) is not f:
+                continue
+            n += 1
+            ctx.violated(rule, '%s:%s#last-element-after-loop[%s]' % (mod.relpath.replace('pyerrors/', ''), q, unparse(st)[:40]),
+                         '`%s` follows the loop at line %d that appends to %s: it acts on the last element only, every other element built by the loop keeps its default' % (
+                             unparse(st)[:70], loop.lineno, lst), mod.loc(st))
         # nested functions are visited on their own
         for loop, nm, node in findings(mod, f):
             if mod.enclosing_func(node) is not f:
